@@ -436,29 +436,73 @@ func init() {
 
 	register(&Rule{
 		Name:  "FLOW-ipv4",
-		Doc:   "the IPv4 parser and the ends-in-a-number checker run only from the host parser, after the opaque-host early return, the IPv4 parser only when the checker answered true for the same text; every host-parser call passes !url.IsSpecialScheme() as isNotSpecial",
+		Doc:   "the IPv4 parser and the ends-in-a-number checker run only where a bool parameter that carries !url.IsSpecialScheme() (directly or handed down by a caller) is known to be false, the IPv4 parser only when the checker answered true for the same text",
 		Props: []string{"C07"},
-		Floor: 4,
+		Floor: 3,
 		Run: func(c *Ctx, s *core.Sink) {
-			ph := c.P.Func("url", "parser", "parseHost")
 			p4 := c.P.Func("url", "parser", "parseIPv4")
 			en := c.P.Func("url", "parser", "endsInANumber")
-			if ph == nil || p4 == nil || en == nil {
-				s.Unknown("ipv4/anchors", "-", "parseHost / parseIPv4 / endsInANumber not found")
+			if p4 == nil || en == nil {
+				s.Unknown("ipv4/anchors", "-", "parseIPv4 / endsInANumber not found")
 				return
 			}
-			// isNotSpecial parameter
-			var notSpecial *ssa.Parameter
-			for _, p := range ph.Params {
-				if types.Identical(p.Type(), types.Typ[types.Bool]) {
-					notSpecial = p
+			// notSpecialParam(f, p): at every call site of f the argument for p is !X.IsSpecialScheme() or a parameter with the same property
+			var carries func(f *ssa.Function, p *ssa.Parameter, depth int) (bool, string)
+			carries = func(f *ssa.Function, p *ssa.Parameter, depth int) (bool, string) {
+				if depth > 3 {
+					return false, "call chain too deep"
 				}
-			}
-			if notSpecial == nil {
-				s.Unknown("ipv4/isNotSpecial", c.P.Pos(ph.Pos()), "parseHost has no bool parameter")
-				return
+				idx := -1
+				for i, q := range f.Params {
+					if q == p {
+						idx = i
+					}
+				}
+				sites := 0
+				for _, g := range c.P.ModFns {
+					for _, b := range g.Blocks {
+						for _, ins := range b.Instrs {
+							call, ok := ins.(*ssa.Call)
+							if !ok || call.Common().StaticCallee() != f {
+								continue
+							}
+							sites++
+							arg := call.Common().Args[idx]
+							if u, isU := arg.(*ssa.UnOp); isU && u.Op == token.NOT {
+								if ic, isC := u.X.(*ssa.Call); isC {
+									if icl := ic.Common().StaticCallee(); icl != nil && icl.Name() == "IsSpecialScheme" {
+										// of the URL handed to the same call
+										same := false
+										for _, a := range call.Common().Args {
+											if a == ic.Common().Args[0] {
+												same = true
+											}
+										}
+										if same {
+											continue
+										}
+										return false, fmt.Sprintf("%s passes !IsSpecialScheme() of a different URL at %s", core.FuncName(g), c.P.Pos(call.Pos()))
+									}
+								}
+							}
+							if q, isP := arg.(*ssa.Parameter); isP {
+								if ok, why := carries(g, q, depth+1); ok {
+									continue
+								} else {
+									return false, why
+								}
+							}
+							return false, fmt.Sprintf("%s passes something other than !url.IsSpecialScheme() at %s", core.FuncName(g), c.P.Pos(call.Pos()))
+						}
+					}
+				}
+				if sites == 0 {
+					return false, core.FuncName(f) + " has no call site"
+				}
+				return true, ""
 			}
 			n := map[string]int{}
+			hostParsers := map[*ssa.Function]*ssa.Parameter{}
 			for _, f := range c.P.ModFns {
 				for _, b := range f.Blocks {
 					for _, ins := range b.Instrs {
@@ -467,64 +511,46 @@ func init() {
 							continue
 						}
 						cl := call.Common().StaticCallee()
-						switch cl {
-						case p4, en:
-							base := "ipv4/" + core.FuncName(f) + "/calls:" + cl.Name()
-							n[base]++
-							key := fmt.Sprintf("%s#%d", base, n[base])
-							if f != ph {
-								s.Bad(key, c.P.Pos(call.Pos()), cl.Name()+" is called outside the host parser: hosts that are not special-scheme domains could be reinterpreted as IPv4 addresses")
-								continue
-							}
-							ff := Facts(c, f)
-							facts := ff.At(b)
-							special := false
-							checked := cl == en
-							for _, fa := range facts {
-								if fa.Cond == ssa.Value(notSpecial) && !fa.Val {
+						if cl != p4 && cl != en {
+							continue
+						}
+						base := "ipv4/" + core.FuncName(f) + "/calls:" + cl.Name()
+						n[base]++
+						key := fmt.Sprintf("%s#%d", base, n[base])
+						ff := Facts(c, f)
+						special, why := false, "no bool parameter is known to be false here"
+						checked := cl == en
+						for _, fa := range ff.At(b) {
+							if p, ok := fa.Cond.(*ssa.Parameter); ok && !fa.Val && types.Identical(p.Type(), types.Typ[types.Bool]) {
+								if ok, w := carries(f, p, 0); ok {
 									special = true
-								}
-								if ec, ok := fa.Cond.(*ssa.Call); ok && ec.Common().StaticCallee() == en && fa.Val {
-									// same text
-									if ec.Common().Args[len(ec.Common().Args)-1] == call.Common().Args[len(call.Common().Args)-1] {
-										checked = true
-									}
+									hostParsers[f] = p
+								} else {
+									why = w
 								}
 							}
-							switch {
-							case !special:
-								s.Bad(key, c.P.Pos(call.Pos()), "not dominated by the opaque-host early return (isNotSpecial == false)")
-							case !checked:
-								s.Bad(key, c.P.Pos(call.Pos()), "the IPv4 parser runs without endsInANumber having answered true for the same text: domains that do not end in a number could become addresses")
-							default:
-								s.OK(key, c.P.Pos(call.Pos()), "inside parseHost, special hosts only"+map[bool]string{true: ", after endsInANumber(text) == true", false: ""}[cl == p4])
-							}
-						case ph:
-							base := "ipv4/" + core.FuncName(f) + "/calls:parseHost"
-							n[base]++
-							key := fmt.Sprintf("%s#%d", base, n[base])
-							// last bool argument: !u.IsSpecialScheme() on the url argument
-							var flag, urlArg ssa.Value
-							for i, p := range ph.Params {
-								if p == notSpecial {
-									flag = call.Common().Args[i]
-								}
-								if namedOf(p.Type()) == "Url" {
-									urlArg = call.Common().Args[i]
+							if ec, ok := fa.Cond.(*ssa.Call); ok && ec.Common().StaticCallee() == en && fa.Val {
+								if ec.Common().Args[len(ec.Common().Args)-1] == call.Common().Args[len(call.Common().Args)-1] {
+									checked = true
 								}
 							}
-							ok := false
-							if u, isU := flag.(*ssa.UnOp); isU && u.Op == token.NOT {
-								if ic, isC := u.X.(*ssa.Call); isC {
-									if icl := ic.Common().StaticCallee(); icl != nil && icl.Name() == "IsSpecialScheme" && ic.Common().Args[0] == urlArg {
-										ok = true
-									}
-								}
-							}
-							s.Check(ok, key, c.P.Pos(call.Pos()), "isNotSpecial = !url.IsSpecialScheme() of the URL being parsed", "isNotSpecial is not !url.IsSpecialScheme() of the URL being parsed")
+						}
+						switch {
+						case !special:
+							s.Bad(key, c.P.Pos(call.Pos()), "not confined to special-scheme hosts ("+why+"): opaque hosts could be reinterpreted as IPv4 addresses")
+						case !checked:
+							s.Bad(key, c.P.Pos(call.Pos()), "the IPv4 parser runs without endsInANumber having answered true for the same text: domains that do not end in a number could become addresses")
+						default:
+							s.OK(key, c.P.Pos(call.Pos()), "special hosts only (isNotSpecial == false, carried from !url.IsSpecialScheme())"+map[bool]string{true: ", after endsInANumber(text) == true", false: ""}[cl == p4])
 						}
 					}
 				}
+			}
+			for f, p := range hostParsers {
+				s.OK("ipv4/"+core.FuncName(f)+"/isNotSpecial", c.P.Pos(f.Pos()), "parameter "+p.Name()+" is !url.IsSpecialScheme() of the URL being parsed at every call site")
+			}
+			if len(n) == 0 {
+				s.Unknown("ipv4/none", "-", "no call of the IPv4 parser found")
 			}
 		},
 	})
@@ -641,9 +667,21 @@ func init() {
 		Props: []string{"C09"},
 		Floor: 4,
 		Run: func(c *Ctx, s *core.Sink) {
-			ph := c.P.Func("url", "parser", "parseHost")
+			// the domain pipeline: the function that applies the parser's ToASCII
+			var ph *ssa.Function
+			for _, f := range c.P.ModFns {
+				for _, b := range f.Blocks {
+					for _, ins := range b.Instrs {
+						if call, ok := ins.(*ssa.Call); ok {
+							if cl := call.Common().StaticCallee(); cl != nil && cl.Name() == "ToASCII" && namedOf(recvType(cl)) == "parser" && f != cl {
+								ph = f
+							}
+						}
+					}
+				}
+			}
 			if ph == nil {
-				s.Unknown("hostpipe/anchor", "-", "parseHost not found")
+				s.Unknown("hostpipe/anchor", "-", "no function applies (*parser).ToASCII")
 				return
 			}
 			var decode, toascii *ssa.Call
